@@ -91,7 +91,7 @@ class ModbusBinaryFramer(ModbusFramer):
         it or determined that it contains an error. It also has to reset the
         current frame header handle
         """
-        self._buffer = self._buffer[self._header['len'] + 2:]
+        self._buffer = self._buffer[self._header['len'] + 1:]
         self._header = {'crc':0x0000, 'len':0, 'uid':0x00}
 
     def isFrameReady(self):
@@ -177,6 +177,9 @@ class ModbusBinaryFramer(ModbusFramer):
                     break
 
             else:
+                if self._buffer.find(self._end) == -1:
+                    # the closing delimiter has not arrived yet: wait for it
+                    break
                 _logger.debug("Frame check failed, ignoring!!")
                 self.resetFrame()
                 break
